@@ -87,11 +87,21 @@ def run(tier, seed, open_findings):
     jobs = [(ver, a, b) for ver in ('1.0', '1.1') for a in forms(ver) for b in forms(ver)]
     res = pmap(eval_pair, jobs)
     fails = [dict(case=dict(ver=r['ver'], a=list(r['a']), b=list(r['b']), what=b[0]), observed=b[1], required=b[2]) for r in res for b in r['bad']]
-    return [result('C16.pairs_through_real_schemas', f'{len(jobs)} ordered pairs of constraints x (extension, attribute group, restriction, choice of two xs:any) over the universe {UNIVERSE}', len(jobs) * 4, fails,
+    # the wildcard computed for a type that references two attribute groups (C03's family, the clause is C16's: combined groups admit the intersection)
+    from . import C03
+    tjobs = [(g1, g2, '1.1', False) for g1 in C03.GW11 for g2 in C03.GW11] + [(g1, g2, '1.0', True) for g1 in C03.GW for g2 in C03.GW]
+    tres = pmap(C03.eval_two_groups, tjobs, chunk=4)
+    tfail = [dict(case=dict(two_groups=list(r['args'])), observed=[list(b) for b in r['bad'][:4]], required='a type that references two attribute groups admits the intersection of their wildcards') for r in tres if r]
+    two = result('C16.two_attribute_groups_intersection', f'{len(tjobs)} schemas: one type referencing two attribute groups with wildcards (XSD 1.1 incl. notNamespace / notQName; XSD 1.0 with the second group in an imported schema) x 6 names',
+                 len(tjobs) * 6, tfail, exhaustive=True, distinct=len(tjobs) * 6)
+    return [two, result('C16.pairs_through_real_schemas', f'{len(jobs)} ordered pairs of constraints x (extension, attribute group, restriction, choice of two xs:any) over the universe {UNIVERSE}', len(jobs) * 4, fails,
                    exhaustive=True, samples=[dict(a=['namespace', '##other'], b=['namespace', '##targetNamespace urn:b'], op='extension')], distinct=len(jobs) * 4)]
 
 
 def replay(check_name, case):
+    if 'two_groups' in case:
+        from . import C03
+        return C03.replay(check_name, case)
     r = eval_pair((case['ver'], tuple(case['a']), tuple(case['b'])))
     mine = [b for b in r['bad'] if b[0] == case.get('what')]
     return dict(ok=not mine, observed=mine, required='set reading')
